@@ -229,7 +229,7 @@ func (s src) payload() string {
 }
 
 type stmt struct {
-	kind   string // ins upd del
+	kind   string // ins upd del odku (INSERT of one tuple … ON DUPLICATE KEY UPDATE sets)
 	ignore bool
 	cols   []int
 	tuples [][]src
@@ -247,6 +247,14 @@ func (st stmt) SQL() string {
 		ig = " IGNORE"
 	}
 	switch st.kind {
+	case "odku":
+		ins := st
+		ins.kind = "ins"
+		ss := make([]string, len(st.sets))
+		for i, s := range st.sets {
+			ss[i] = fmt.Sprintf("c%d = %s", s.c, s.s.SQL())
+		}
+		return ins.SQL() + " ON DUPLICATE KEY UPDATE " + strings.Join(ss, ", ")
 	case "ins":
 		cs := make([]string, len(st.cols))
 		for i, c := range st.cols {
@@ -285,6 +293,20 @@ func b01(b bool) int {
 
 func (st stmt) payload() string {
 	switch st.kind {
+	case "odku":
+		cs := make([]string, len(st.cols))
+		for i, c := range st.cols {
+			cs[i] = fmt.Sprint(c)
+		}
+		vs := make([]string, len(st.tuples[0]))
+		for j, v := range st.tuples[0] {
+			vs[j] = v.payload()
+		}
+		ss := make([]string, len(st.sets))
+		for i, s := range st.sets {
+			ss[i] = fmt.Sprintf("(%d %s)", s.c, s.s.payload())
+		}
+		return fmt.Sprintf("(odku (%s) (%s) (%s))", strings.Join(cs, " "), strings.Join(vs, " "), strings.Join(ss, " "))
 	case "ins":
 		cs := make([]string, len(st.cols))
 		for i, c := range st.cols {
@@ -588,6 +610,180 @@ func genStmt(r *hx.Rand, t *table, keys []int) stmt {
 	}
 }
 
+// genChainTable: generated columns defined over OTHER generated columns (g1 AS (a*2), g2 AS (g1+1), g3 AS
+// (g2+b) …): chains of depth 2-4 whose links mention earlier columns only (the engine rejects forward
+// references). Mostly STORED, no IGNORE-sensitive NOT NULL columns, at most one CHECK — so that a stale link is
+// not hidden inside one of the two known regions.
+func genChainTable(r *hx.Rand) *table {
+	t := &table{}
+	t.cols = append(t.cols, colSpec{notNull: true})
+	np := 1 + r.Intn(2)
+	for i := 1; i <= np; i++ {
+		c := colSpec{}
+		switch r.Intn(4) {
+		case 0:
+			c.dflt = lit(r.Intn(9) - 2)
+		case 1:
+			c.dflt = add(mul(col(0), lit(1+r.Intn(2))), lit(r.Intn(4)))
+		}
+		t.cols = append(t.cols, c)
+	}
+	ng := 2 + r.Intn(3)
+	virtual := r.Chance(1, 8)
+	for i := 0; i < ng; i++ {
+		n := len(t.cols)
+		// the link: the previous generated column (the chain), or any earlier generated / plain column (a side branch)
+		link := func() *expr {
+			if i > 0 && r.Chance(3, 4) {
+				return col(n - 1)
+			}
+			if i > 0 && r.Chance(1, 3) {
+				return col(np + 1 + r.Intn(i))
+			}
+			return col(1 + r.Intn(np))
+		}
+		var e *expr
+		switch r.Intn(4) {
+		case 0:
+			e = add(link(), lit(1+r.Intn(3)))
+		case 1:
+			e = mul(link(), lit(2))
+		case 2:
+			e = add(link(), col(1+r.Intn(np))) // chain link + a plain column (the demo's tot AS (dbl1+fee))
+		default:
+			e = add(link(), link())
+		}
+		t.cols = append(t.cols, colSpec{gen: e, virtual: virtual && r.Chance(1, 2)})
+	}
+	if r.Chance(1, 3) {
+		x := col(r.Intn(len(t.cols)))
+		k := lit(r.Intn(12) - 1)
+		var b *bexpr
+		switch r.Intn(3) {
+		case 0:
+			b = &bexpr{op: "ne", a: x, b: k}
+		case 1:
+			b = &bexpr{op: "or", p: &bexpr{op: "lt", a: k, b: x}, q: &bexpr{op: "isnull", a: x}}
+		default:
+			b = &bexpr{op: "le", a: x, b: lit(20 + r.Intn(30))}
+		}
+		t.checks = append(t.checks, check{e: b, enforced: true})
+	}
+	return t
+}
+
+// genChainStmt: histories for chain tables: INSERTs to have rows, then mostly UPDATEs that assign ONE base column
+// (constant, expression over itself or another plain column, DEFAULT) by key or unrestricted, sometimes two base
+// columns, sometimes a generated column = DEFAULT; no IGNORE.
+func genChainStmt(r *hx.Rand, t *table, keys []int) stmt {
+	plain := t.plainCols()
+	if len(keys) == 0 || r.Chance(1, 5) {
+		st := stmt{kind: "ins", cols: []int{0}}
+		for _, c := range plain {
+			if r.Chance(4, 5) {
+				st.cols = append(st.cols, c)
+			}
+		}
+		n := 1 + r.Intn(3)
+		used := map[int]bool{}
+		for _, k := range keys {
+			used[k] = true
+		}
+		for i := 0; i < n; i++ {
+			k := 1 + r.Intn(9)
+			for try := 0; try < 6 && used[k]; try++ {
+				k = 1 + r.Intn(9)
+			}
+			used[k] = true
+			tup := []src{sv(k)}
+			for range st.cols[1:] {
+				if r.Chance(1, 10) {
+					tup = append(tup, snull())
+				} else {
+					tup = append(tup, sv(r.Intn(13)-2))
+				}
+			}
+			st.tuples = append(st.tuples, tup)
+		}
+		return st
+	}
+	if r.Chance(1, 12) {
+		return stmt{kind: "del", hasKey: true, key: hx.Pick(r, keys)}
+	}
+	st := stmt{kind: "upd", hasKey: r.Chance(3, 4), key: hx.Pick(r, keys)}
+	if r.Chance(1, 4) {
+		// INSERT … ON DUPLICATE KEY UPDATE of a base column: one tuple, mostly with an existing key (the update path),
+		// sometimes with a fresh one (the insert path); the tuple always names every plain column with a value
+		k := hx.Pick(r, keys)
+		if r.Chance(1, 6) {
+			k = 1 + r.Intn(9)
+		}
+		st = stmt{kind: "odku", cols: []int{0}, tuples: [][]src{{sv(k)}}}
+		for _, c := range plain {
+			st.cols = append(st.cols, c)
+			st.tuples[0] = append(st.tuples[0], sv(r.Intn(13)-2))
+		}
+	}
+	n := 1
+	if r.Chance(1, 5) {
+		n = 2
+	}
+	for i := 0; i < n; i++ {
+		c := hx.Pick(r, plain)
+		var s src
+		switch y := r.Intn(10); {
+		case y < 5:
+			s = sv(r.Intn(13) - 2)
+		case y < 6:
+			s = snull()
+		case y < 7:
+			s = src{kind: "d"}
+		case y < 9:
+			s = src{kind: "e", e: add(col(c), lit(1+r.Intn(3)))}
+		default:
+			s = src{kind: "e", e: add(col(hx.Pick(r, plain)), lit(r.Intn(3)))}
+		}
+		st.sets = append(st.sets, setT{c, s})
+	}
+	if st.kind == "upd" && r.Chance(1, 12) { // a generated column assigned DEFAULT beside a base column
+		for i, c := range t.cols {
+			if c.gen != nil && r.Chance(1, 2) {
+				st.sets = append(st.sets, setT{i, src{kind: "d"}})
+				break
+			}
+		}
+	}
+	return st
+}
+
+func (t *table) chainDepth() int {
+	depth := make([]int, len(t.cols))
+	best := 0
+	var walk func(e *expr) int
+	walk = func(e *expr) int {
+		switch e.op {
+		case "col":
+			return depth[e.i]
+		case "lit":
+			return 0
+		}
+		a, b := walk(e.a), walk(e.b)
+		if a > b {
+			return a
+		}
+		return b
+	}
+	for i, c := range t.cols {
+		if c.gen != nil {
+			depth[i] = 1 + walk(c.gen)
+			if depth[i] > best {
+				best = depth[i]
+			}
+		}
+	}
+	return best
+}
+
 // ---------------------------------------------------------------------------------------------
 
 func runCase(t *table, nst int, next func(i int, keys []int) stmt, out *hx.Out) {
@@ -606,7 +802,8 @@ func runCase(t *table, nst int, next func(i int, keys []int) stmt, out *hx.Out) 
 	var sb strings.Builder
 	var parts []string
 	var failures []string
-	rejected, adjusted := false, false
+	rejected, adjusted, chainUpd := false, false, false
+	depth := t.chainDepth()
 	before := d.dump()
 	for i := 0; i < nst; i++ {
 		var keys []int
@@ -641,6 +838,9 @@ func runCase(t *table, nst int, next func(i int, keys []int) stmt, out *hx.Out) 
 		if st.ignore && cl == "ok" {
 			adjusted = true
 		}
+		if depth >= 2 && (st.kind == "upd" || st.kind == "odku") && cl == "ok" && before != after {
+			chainUpd = true // an UPDATE changed a row whose generated columns form a chain
+		}
 		out.Stat("stmt:" + st.kind)
 		out.Stat("class:" + cl)
 		fmt.Fprintf(&sb, "%s;%s;ok=%s|", cl, after, flag)
@@ -650,7 +850,11 @@ func runCase(t *table, nst int, next func(i int, keys []int) stmt, out *hx.Out) 
 		out.Stat("table:virtual")
 	}
 	out.StatN("checks", len(t.checks))
-	id := out.Case(t.payload()+" (stmts "+strings.Join(parts, " ")+")", sb.String(), rejected || adjusted)
+	out.Stat(fmt.Sprintf("gen-chain-depth:%d", depth))
+	if chainUpd {
+		out.Stat("chain:update-changed-row")
+	}
+	id := out.Case(t.payload()+" (stmts "+strings.Join(parts, " ")+")", sb.String(), rejected || adjusted || chainUpd)
 	for _, f := range failures {
 		out.OracleFail(id, "-", f)
 	}
@@ -670,10 +874,13 @@ func run(a hx.RunArgs) error {
 	out.Rule = "DML histories (INSERT [IGNORE] with column lists, NULL and DEFAULT values, multi-row; UPDATE [IGNORE] with constant, DEFAULT and " +
 		"expression assignments, by key or unrestricted; DELETE by key) on generated tables: integer primary key, 1-3 plain columns (NULL / NOT NULL, " +
 		"no / literal / expression default), 0-2 generated columns (STORED / VIRTUAL), 0-2 CHECK constraints (comparisons, AND / OR / NOT / IS NULL, " +
-		"ENFORCED / NOT ENFORCED); after every statement the outcome class, the table and the engine-evaluated Stored predicate are observed; " +
-		"non-trivial = a CHECK or NOT NULL rejected a statement or an IGNORE statement ran"
+		"ENFORCED / NOT ENFORCED); a second stream of tables whose 2-4 generated columns are defined over OTHER generated columns (chains of depth " +
+		"2-4, side branches) with histories that mostly UPDATE one base column; after every statement the outcome class, the table and the engine-evaluated Stored predicate are observed; " +
+		"non-trivial = a CHECK or NOT NULL rejected a statement, an IGNORE statement ran, or an UPDATE changed a row of a table whose generated columns form a chain of depth >= 2"
 	// (hx.NewRand(seed) streams are shifts of one another; derive the generator from an output)
-	r := hx.NewRand(hx.NewRand(a.Seed).U64())
+	r0 := hx.NewRand(a.Seed)
+	r := hx.NewRand(r0.U64())
+	rc := hx.NewRand(r0.U64() ^ 0x9e3779b97f4a7c15) // the chain stream (generated columns over generated columns)
 	fixed := func(t *table, stmts []stmt) {
 		runCase(t, len(stmts), func(i int, _ []int) stmt { return stmts[i] }, out)
 	}
@@ -715,6 +922,33 @@ func run(a hx.RunArgs) error {
 		})
 	}
 
+	{ // generated columns over generated columns: every link of the chain is recomputed when only the base column is assigned
+		// (the demo table of seeded/C19-1: qty, fee, dbl AS (qty*2), dbl1 AS (dbl+1), tot AS (dbl1+fee), feex AS (fee*10))
+		t := &table{cols: []colSpec{{notNull: true}, {}, {dflt: lit(0)}, {gen: mul(col(1), lit(2))}, {gen: add(col(3), lit(1))},
+			{gen: add(col(4), col(2))}, {gen: mul(col(2), lit(10))}}}
+		fixed(t, []stmt{
+			{kind: "ins", cols: []int{0, 1, 2}, tuples: [][]src{{sv(1), sv(1), sv(1)}, {sv(2), sv(2), sv(0)}, {sv(3), sv(3), sv(5)}}},
+			{kind: "upd", sets: []setT{{1, sv(10)}}, hasKey: true, key: 2},
+			{kind: "upd", sets: []setT{{2, sv(4)}}, hasKey: true, key: 1},
+			{kind: "upd", sets: []setT{{1, src{kind: "e", e: add(col(1), lit(1))}}, {2, src{kind: "e", e: add(col(2), lit(1))}}}},
+			{kind: "upd", sets: []setT{{1, snull()}}, hasKey: true, key: 3},
+			{kind: "upd", sets: []setT{{1, sv(7)}, {4, src{kind: "d"}}}, hasKey: true, key: 1},
+			{kind: "upd", sets: []setT{{1, sv(7)}}}, // rows 1 unchanged: skipped
+			{kind: "odku", cols: []int{0, 1}, tuples: [][]src{{sv(3), sv(50)}}, sets: []setT{{1, sv(9)}}},                              // existing key: update path
+			{kind: "odku", cols: []int{0, 1}, tuples: [][]src{{sv(4), sv(50)}}, sets: []setT{{1, sv(9)}}},                              // fresh key: insert path
+			{kind: "odku", cols: []int{0, 1, 2}, tuples: [][]src{{sv(4), sv(0), sv(0)}}, sets: []setT{{2, src{kind: "e", e: add(col(2), lit(3))}}}}, // c2 = c2 + 3
+		})
+		// depth 3 with a CHECK on the last link: the CHECK sees the recomputed chain
+		t2 := &table{cols: []colSpec{{notNull: true}, {}, {gen: add(col(1), lit(1))}, {gen: mul(col(2), lit(2))}, {gen: add(col(3), col(2))}},
+			checks: []check{{e: &bexpr{op: "le", a: col(4), b: lit(30)}, enforced: true}}}
+		fixed(t2, []stmt{
+			{kind: "ins", cols: []int{0, 1}, tuples: [][]src{{sv(1), sv(1)}, {sv(2), sv(2)}}},
+			{kind: "upd", sets: []setT{{1, sv(5)}}, hasKey: true, key: 1},
+			{kind: "upd", sets: []setT{{1, sv(10)}}, hasKey: true, key: 2}, // (10+1)*2 + 11 = 33 > 30: rejected
+			{kind: "upd", sets: []setT{{1, src{kind: "e", e: add(col(1), lit(4))}}}},
+		})
+	}
+
 	// random ------------------------------------------------------------------------------------
 	n := 900
 	if a.Thorough {
@@ -724,6 +958,16 @@ func run(a hx.RunArgs) error {
 		t := genTable(r)
 		nst := 6 + r.Intn(8)
 		runCase(t, nst, func(_ int, keys []int) stmt { return genStmt(r, t, keys) }, out)
+	}
+	// chains: generated columns over generated columns, UPDATEs of the base columns only ----------
+	nchain := 350
+	if a.Thorough {
+		nchain = 10000
+	}
+	for i := 0; i < nchain; i++ {
+		t := genChainTable(rc)
+		nst := 5 + rc.Intn(6)
+		runCase(t, nst, func(_ int, keys []int) stmt { return genChainStmt(rc, t, keys) }, out)
 	}
 	return nil
 }
